@@ -17,7 +17,7 @@ from __future__ import annotations
 
 import ast
 
-from ..core import (ancestors, AnalysisError, Report, call_name, dotted, find_class, find_func, need,
+from ..core import (ancestors, AnalysisError, Report, call_name, dotted, enclosing_class, find_class, find_func, need,
                     norm, short, parent)
 from ..flow import Flow, MustFacts
 from ..index import Index
@@ -605,6 +605,274 @@ def r04_8(rep: Report) -> None:
                  're-encoded short', fn)
 
 
+# ---------------------------------------------------------------- R04.12 a value read from the file stands
+def _is_source_read(v: ast.AST) -> bool:
+    for c in ast.walk(v):
+        if isinstance(c, ast.Call):
+            if isinstance(c.func, ast.Attribute) and c.func.attr in ('read', 'get', 'peek', 'read_bytes', 'readbits') \
+                    and norm(c.func.value) in ('src', 'r', 'reader', 'fr', 'bits'):
+                return True
+            if norm(c.func).endswith('unpack'):
+                return True
+    return False
+
+
+def _entry_key(t: ast.AST) -> str | None:
+    if isinstance(t, ast.Subscript) and isinstance(t.value, ast.Name) and isinstance(t.slice, ast.Constant):
+        return f'{t.value.id}[{t.slice.value!r}]'
+    return None
+
+
+def read_value_stands(fn: ast.AST) -> list[tuple[ast.stmt, str]]:
+    """(statement, entry) where an entry of the result dict that was read from the source on some path to this
+    point is stored again with a value that neither comes from the source, nor from the entry itself, nor from
+    another parsed record (`trun['first_sample_flags']`): a default or a constant replaces what the file says."""
+    from ..flow import Flow, MayFacts
+    hits: list[tuple[ast.stmt, str]] = []
+
+    def gen(st):
+        if isinstance(st, ast.Assign) and len(st.targets) == 1:
+            k = _entry_key(st.targets[0])
+            if k and _is_source_read(st.value):
+                return [f'read:{k}']
+        return []
+
+    def on_stmt(st, state):
+        if isinstance(st, ast.Assign) and len(st.targets) == 1:
+            k = _entry_key(st.targets[0])
+            if k and f'read:{k}' in state and not _is_source_read(st.value) and k not in norm(st.value) \
+                    and not (isinstance(st.value, ast.Subscript) and isinstance(st.value.value, ast.Name)):
+                hits.append((st, k))
+    Flow(MayFacts(gen), on_stmt=on_stmt).run(fn, frozenset())
+    return hits
+
+
+def r04_12(rep: Report) -> None:
+    """R04.12  what a parser read from the file is the value of the field: on no path is an entry that was read
+    replaced by a default taken from elsewhere (a tfhd default over the per-sample value of a trun).  The writer
+    emits the field under the same flag the reader tested (R04.1), so a replaced value is also written back
+    changed.  All parse / parse_header / parse_payload methods of mp4.py; may-analysis over each."""
+    rid = 'R04.12'
+    tree = rep.repo.tree(MP4)
+    n = 0
+    for cls in [c for c in ast.walk(tree) if isinstance(c, ast.ClassDef)]:
+        for fn in [f for f in cls.body if isinstance(f, ast.FunctionDef) and f.name in ('parse', 'parse_header', 'parse_payload')]:
+            n += 1
+            hits = read_value_stands(fn)
+            construct = f'{MP4}::{cls.name}.{fn.name}'
+            if not hits:
+                rep.ok(rid, construct, 'read values stand')
+            for st, k in hits:
+                rep.fail(rid, construct, f'{k} replaced',
+                         f'`{short(st, 70)}` stores into `{k}` although the entry was read from the file on a path to this '
+                         'statement: the value in the file (a per-sample duration, size or flags word) is replaced by a default - '
+                         'durations, sizes and offsets computed from the parsed box no longer describe the stored media, and the '
+                         'box is written back changed', st)
+    if n < 40:
+        raise AnalysisError(f'R04.12: only {n} parse methods found in mp4.py')
+
+
+# ---------------------------------------------------------------- R04.13 raw bytes are never decoded by their content
+class _RawBytes:
+    """three-valued walk of a function for the call the parsers make: `data` is a bytes object, every other
+    parameter has its default.  Tests are decided where the types decide them (a bytes object never equals a str,
+    is no Binary, is not None); everything else is open and both branches are followed."""
+
+    def __init__(self, fn: ast.FunctionDef, given: dict[str, object]) -> None:
+        self.fn = fn
+        self.env0: dict[str, object] = {}
+        args = fn.args
+        names = [a.arg for a in args.args]
+        defaults = [None] * (len(names) - len(args.defaults)) + list(args.defaults)
+        for n_, d in zip(names, defaults):
+            if n_ in ('self', 'clz', 'cls'):
+                continue
+            if n_ in given:
+                self.env0[n_] = given[n_]
+            elif isinstance(d, ast.Constant):
+                self.env0[n_] = ('const', d.value)
+            else:
+                self.env0[n_] = ('open',)
+        self.changed: list[ast.stmt] = []          # statements that rebind `data` on a feasible path
+        self.returns: list[tuple[ast.Return, dict]] = []
+
+    def truth(self, e: ast.AST, env: dict) -> bool | None:
+        if isinstance(e, ast.BoolOp):
+            vals = [self.truth(v, env) for v in e.values]
+            if isinstance(e.op, ast.And):
+                return False if any(v is False for v in vals) else (True if all(v is True for v in vals) else None)
+            return True if any(v is True for v in vals) else (False if all(v is False for v in vals) else None)
+        if isinstance(e, ast.UnaryOp) and isinstance(e.op, ast.Not):
+            v = self.truth(e.operand, env)
+            return None if v is None else not v
+        if isinstance(e, ast.Name) and e.id in env:
+            v = env[e.id]
+            if v[0] == 'const':
+                return bool(v[1])
+            return None                             # bytes of unknown length, open values
+        if isinstance(e, ast.Call) and isinstance(e.func, ast.Name) and e.func.id == 'isinstance' and len(e.args) == 2 \
+                and isinstance(e.args[0], ast.Name) and env.get(e.args[0].id, ('open',))[0] == 'bytes':
+            t = norm(e.args[1])
+            kinds = {x.strip() for x in t.strip('()').split(',')}
+            if kinds & {'bytes', 'bytearray', '(bytes', 'bytes)'}:
+                return True
+            if all(k in ('str', 'Binary', 'HexBinary', 'int', 'list', 'dict', 'tuple', 'clz', 'cls') for k in kinds):
+                return False
+            return None
+        if isinstance(e, ast.Compare) and len(e.ops) == 1:
+            op, left, right = e.ops[0], e.left, e.comparators[0]
+            if isinstance(op, (ast.Is, ast.IsNot)) and isinstance(right, ast.Constant) and right.value is None \
+                    and isinstance(left, ast.Name) and left.id in env:
+                v = env[left.id]
+                if v[0] == 'open':
+                    return None
+                is_none = v[0] == 'const' and v[1] is None
+                return is_none if isinstance(op, ast.Is) else not is_none
+            # something cut from the bytes object compared with constants
+            base = left
+            while isinstance(base, ast.Subscript):
+                base = base.value
+            if isinstance(base, ast.Name) and env.get(base.id, ('open',))[0] == 'bytes' \
+                    and isinstance(op, (ast.Eq, ast.NotEq, ast.In, ast.NotIn)):
+                consts = [right] if isinstance(right, ast.Constant) else \
+                    list(right.elts) if isinstance(right, (ast.Tuple, ast.List, ast.Set)) else None
+                if consts is None and isinstance(right, (ast.Attribute, ast.Name)):
+                    consts = self.class_const(right)
+                if consts is not None and consts and all(isinstance(c, ast.Constant) and isinstance(c.value, str) for c in consts):
+                    return isinstance(op, (ast.NotEq, ast.NotIn))       # bytes never equal text
+                return None
+            if isinstance(op, (ast.Eq, ast.NotEq)) and isinstance(left, ast.Name) and left.id in env and env[left.id][0] != 'open':
+                v = env[left.id]
+                r = ('sym', norm(right)) if not isinstance(right, ast.Constant) else ('const', right.value)
+                if v[0] == 'const' and v[1] is None and r[0] == 'sym':
+                    return isinstance(op, ast.NotEq)        # None equals no class constant
+                if v == r:
+                    return isinstance(op, ast.Eq)
+                if v[0] == 'sym' and r[0] == 'sym':
+                    return isinstance(op, ast.NotEq) if v[1].split('.')[-1] != r[1].split('.')[-1] else isinstance(op, ast.Eq)
+                return None
+        return None
+
+    def class_const(self, e: ast.AST):
+        cls = enclosing_class(self.fn)
+        nm = e.attr if isinstance(e, ast.Attribute) else e.id
+        for b in (cls.body if cls else []):
+            if isinstance(b, ast.Assign) and isinstance(b.targets[0], ast.Name) and b.targets[0].id == nm \
+                    and isinstance(b.value, (ast.Tuple, ast.List, ast.Set)):
+                return list(b.value.elts)
+            if isinstance(b, ast.Assign) and isinstance(b.targets[0], ast.Name) and b.targets[0].id == nm \
+                    and isinstance(b.value, ast.Constant):
+                return [b.value]
+        return None
+
+    def block(self, stmts: list[ast.stmt], env: dict) -> list[dict]:
+        envs = [env]
+        for st in stmts:
+            nxt: list[dict] = []
+            for en in envs:
+                nxt += self.stmt(st, en)
+            envs = nxt[:64]
+        return envs
+
+    def stmt(self, st: ast.stmt, env: dict) -> list[dict]:
+        if isinstance(st, ast.If):
+            t = self.truth(st.test, env)
+            out: list[dict] = []
+            if t is not False:
+                out += self.block(st.body, dict(env))
+            if t is not True:
+                out += self.block(st.orelse, dict(env))
+            return out
+        if isinstance(st, ast.Return):
+            self.returns.append((st, dict(env)))
+            return []
+        if isinstance(st, ast.Raise):
+            return []
+        if isinstance(st, (ast.Assign, ast.AnnAssign, ast.AugAssign)) and getattr(st, 'value', None) is not None:
+            tg = st.targets[0] if isinstance(st, ast.Assign) else st.target
+            if isinstance(tg, ast.Name):
+                env = dict(env)
+                if env.get(tg.id, ('open',))[0] == 'bytes' and not (isinstance(st.value, ast.Name) and st.value.id == tg.id):
+                    self.changed.append(st)
+                    env[tg.id] = ('open',)
+                elif isinstance(st.value, ast.Constant):
+                    env[tg.id] = ('const', st.value.value)
+                elif isinstance(st.value, ast.Name) and st.value.id in env:
+                    env[tg.id] = env[st.value.id]
+                else:
+                    env[tg.id] = ('sym', norm(st.value))
+            return [env]
+        if isinstance(st, (ast.For, ast.While, ast.With, ast.Try)):
+            for a in ast.walk(st):
+                if isinstance(a, ast.Name) and isinstance(a.ctx, ast.Store) and env.get(a.id, ('open',))[0] == 'bytes':
+                    self.changed.append(st)
+            return [env]
+        return [env]
+
+    def run(self) -> None:
+        self.block(self.fn.body, dict(self.env0))
+
+
+def r04_13(rep: Report) -> None:
+    """R04.13  a parser hands the bytes it read to a field declared Binary / HexBinary; `object_from` passes them
+    to `Binary.from_kwargs(<bytes>)`.  Those bytes are payload: no test on their *content* may lead to a decoding.
+    from_kwargs and the constructors are walked for that call (data: a bytes object, everything else at its
+    default); the auto-detection of hex / base64 text must be decided by the types alone (`data[:2] == '0x'` is
+    false for every bytes object), and `data` must reach `self.data` unchanged."""
+    rid = 'R04.13'
+    rel = 'dashlive/utils/binary.py'
+    tree = rep.repo.tree(rel)
+    of = rep.repo.tree('dashlive/utils/list_of.py')
+    obj_from = need(find_func(of, 'object_from'), 'list_of.object_from')
+    if 'clz.from_kwargs(value)' not in norm(obj_from):
+        raise AnalysisError('list_of.object_from no longer calls clz.from_kwargs(value)')
+    cls = need(find_class(tree, 'Binary'), 'Binary')
+    fk = need(find_func(cls, 'from_kwargs', raw=True) or find_func(cls, 'from_kwargs'), 'Binary.from_kwargs')
+    first = [a.arg for a in fk.args.args if a.arg not in ('clz', 'cls', 'self')][0]
+    w = _RawBytes(fk, {first: ('bytes',)})
+    w.run()
+    construct = f'{rel}::Binary.from_kwargs'
+    if w.changed:
+        st = w.changed[0]
+        rep.fail(rid, construct, 'raw bytes are kept as they are',
+                 f'for a bytes argument `{short(st, 60)}` is reachable: whether the payload is decoded depends on its content '
+                 '(a test the types do not decide) - a box payload, key id or message that happens to start with the marker '
+                 'is unhexlified / base64-decoded on load, the field no longer holds the bytes of the file and the box is '
+                 'written back shorter (or the load raises binascii.Error)', st)
+    elif not w.returns:
+        raise AnalysisError('Binary.from_kwargs: no return reached for a bytes argument')
+    else:
+        rep.ok(rid, construct, 'raw bytes are kept as they are', f'{len(w.returns)} return path(s), no rebinding of `{first}`')
+    # the constructor call of the return, and the constructors themselves
+    for r_, env in w.returns[:1]:
+        c = r_.value
+        if not (isinstance(c, ast.Call) and norm(c.func) in ('clz', 'cls')):
+            raise AnalysisError('Binary.from_kwargs: the result is not `clz(..)`')
+        passed = {k.arg: k.value for k in c.keywords}
+        if norm(passed.get('data', c.args[0] if c.args else ast.Constant(None))) != first:
+            rep.fail(rid, construct, 'constructor receives the bytes', f'`{short(c, 60)}` does not pass `{first}` on', c)
+        for cname in ('Binary', 'HexBinary'):
+            k = find_class(tree, cname)
+            init = find_func(k, '__init__', raw=True) if k else None
+            if init is None:
+                continue
+            pnames = [a.arg for a in init.args.args if a.arg != 'self']
+            given = {pnames[0]: ('bytes',)}
+            for kw, v in passed.items():
+                if kw in pnames[1:] and isinstance(v, ast.Constant):
+                    given[kw] = ('const', v.value)
+                elif kw in pnames[1:]:
+                    given[kw] = ('open',) if kw != 'encoding' else ('sym', 'HEX')
+            wi = _RawBytes(init, given)
+            wi.run()
+            c2 = f'{rel}::{cname}.__init__'
+            if wi.changed:
+                rep.fail(rid, c2, 'raw bytes are kept as they are',
+                         f'`{short(wi.changed[0], 60)}` is reachable for the call from_kwargs makes', wi.changed[0])
+            else:
+                rep.ok(rid, c2, 'raw bytes are kept as they are')
+
+
 # ---------------------------------------------------------------- R04.10 raw header of a lazily held box
 def r04_10(rep: Report) -> None:
     """a box that is loaded lazily is kept as raw bytes: header bytes collected by the header parser
@@ -786,6 +1054,8 @@ def analyse(rep: Report) -> None:
     rep.rule('R04.7', 'a bit-level FieldWriter is flushed once, by the function that made it', floor=2)
     rep.rule('R04.8', 'the avcC extension block is read for every H.264 profile that carries one', floor=1)
     rep.rule('R04.11', 'a box without payload can be parsed through the windowed reader in rw mode (rule of C16)', floor=1)
+    rep.rule('R04.12', 'a value a parser read from the file is not replaced by a default', floor=40)
+    rep.rule('R04.13', 'bytes a parser hands to a Binary field are stored as they are, whatever their content', floor=3)
     rep.rule('R04.10', 'the raw header kept for a lazily loaded box holds every byte the header parser consumed', floor=1)
     rep.rule('R04.9', 'descriptor size bytes written by Descriptor.encode are read back as the same size', floor=12)
     idx = Index(rep.repo, 'dashlive')
@@ -798,6 +1068,8 @@ def analyse(rep: Report) -> None:
     r04_8(rep)
     r04_9(rep)
     r04_10(rep)
+    r04_12(rep)
+    r04_13(rep)
     # parsing in rw mode through the project's reader: the payload is peeked at only where it is not empty (C16's rule)
     from ..core import lift
     from . import c16 as _c16
